@@ -563,7 +563,9 @@ func (p *parser) skipWhiteSpace() {
 			continue
 		}
 		if p.chr >= utf8.RuneSelf {
-			if unicode.IsSpace(p.chr) {
+			// 7.2: any other Zs character. unicode.IsSpace would also take
+			// U+0085, which is neither white space nor a line terminator.
+			if unicode.Is(unicode.Zs, p.chr) {
 				p.read()
 				continue
 			}
